@@ -159,6 +159,9 @@ func (w *isolated) run(h *History) Verdict {
 		v2 := w.runOnce(h, b)
 		if !v2.Crashed {
 			v2.Rep.Notes = append(v2.Rep.Notes, "slow: answered only within the extended bound")
+		} else {
+			note := "[confirmed: no answer within " + bound(h).String() + " at first; run a second time, alone in a fresh child, with " + b.String() + ": " + v2.Kind + "]"
+			v2.Msg = firstLine(v2.Msg) + "\n" + note + strings.TrimPrefix(v2.Msg, firstLine(v2.Msg))
 		}
 		return v2
 	}
@@ -184,7 +187,10 @@ func (w *isolated) runOnce(h *History, b time.Duration) Verdict {
 			}
 		}
 	}()
-	req, _ := json.Marshal(h)
+	// the child reports by itself (phase, accessor call, stack) shortly before the parent would give up
+	hh := *h
+	hh.WallMs = (b - b/10).Milliseconds()
+	req, _ := json.Marshal(&hh)
 	t0 := time.Now()
 	w.p.in.WriteString(base64.StdEncoding.EncodeToString(req))
 	w.p.in.WriteByte('\n')
@@ -213,6 +219,9 @@ func (w *isolated) runOnce(h *History, b time.Duration) Verdict {
 			w.p.in.Flush()
 			w.p.kill()
 			w.p = nil
+			if rep.Hang {
+				return Verdict{Rep: rep, Crashed: true, Kind: "timeout", Msg: "timeout: " + rep.Resource, Wall: wall}
+			}
 			return Verdict{Rep: rep, Crashed: true, Kind: "resource", Msg: "resource limit exceeded: " + rep.Resource, Wall: wall}
 		}
 		return Verdict{Rep: rep, Wall: wall}
